@@ -45,4 +45,15 @@ CLAIMED["C03"] = {
     "note": TB + "; Lean Float (C double) for the last division of fraction pairs",
     "technique": "Lean 4 proof over an executable model + exhaustive small-scope differential correspondence",
 }
+CLAIMED["C04"] = {
+    "text": "Theorem lazy_eq_eager: by induction over ALL operator trees (and/or/xor/minus/not/degrade), for every assignment of valid leaves and "
+            "EVERY consistent hint configuration of the leaf sources, the lazy iterator tree yields exactly the ranges and depth of the eager "
+            "evaluation AND the hints each node advertises (peek_last, size_hint) are consistent with what it yields (so downstream fast paths "
+            "and the FITS writer's exact-size path are sound: exact_hint_is_length). Five inconsistent size_hint implementations found and "
+            "repaired (check, or, xor, minus, not). Correspondence: trees through the real iterators, the real FITS writer/reader, per-node "
+            "hint checks with hintOkB (proved ⇔ HintOk), check/convert wrappers with exact hint prediction.",
+    "design_ref": "DESIGN.md §4 C04, §10",
+    "note": TB + "; adapters (range<->cell<->cell-range) enter as leaf source kinds with observed hints, merge iterator not modelled",
+    "technique": "Lean 4 proof (induction over programs, hint invariant) + differential correspondence",
+}
 NOT_YET = {}
